@@ -52,6 +52,7 @@ def main(argv):
     tier = os.environ.get("VERIF_TIER", "quick")
     update_ledger = False
     only = None
+    ob_filter = None
     i = 2
     while i < len(argv):
         if argv[i] == "--tier":
@@ -71,6 +72,9 @@ def main(argv):
             return 0
         elif argv[i] == "--only":
             only = set(argv[i + 1].split(","))
+            i += 2
+        elif argv[i] == "--ob":
+            ob_filter = set(argv[i + 1].split(","))
             i += 2
         elif argv[i] == "--replay":
             return replay_file(argv[i + 1])
@@ -92,6 +96,11 @@ def main(argv):
         return 2
     if only:
         units = [u for u in units if u.name in only]
+    if ob_filter:
+        for u in units:
+            u.obligations = [o for o in u.obligations if o.name in ob_filter]
+        units = [u for u in units if u.obligations]
+        only = only or {"(obligation filter)"}
     heavy = [u for u in units if getattr(u, "heavy", False)]
     light = [u for u in units if not getattr(u, "heavy", False)]
 
